@@ -793,10 +793,131 @@ def oracle(ctx):
     try_e3(ctx)
 
 
+# ---------------------------------------------------------------------------------------------
+# E3 part: real serve() return codes for a few projects
+# ---------------------------------------------------------------------------------------------
+
+_PF = {"op": "amend", "env": ["STEPUP_PATH_FILTER"]}
+
+
+def _e3_probe(handler, db):
+    wf = handler.workflow
+    steps = db.execute("SELECT step.state, step._implied_need, node.detached FROM step "
+                       "JOIN node ON node.i = step.node").fetchall()
+    viol = wf.find_glob_violations()
+    return {
+        "steps": [list(r) for r in steps], "threshold": wf.need_threshold.value,
+        "glob_err": sum(1 for v in viol if v.is_error), "glob_warn": sum(1 for v in viol if not v.is_error),
+        "miss_t": sum(1 for t in wf.targets if not wf.is_regular_output(t)),
+        "miss_d": sum(1 for t in wf.target_dirs if not wf.has_regular_output_under(t)),
+        "draining": bool(handler.scheduler.draining),
+    }
+
+
+def e3_projects():
+    """(name, project, history): the last build of each history is the one that is judged."""
+    from . import e3
+    static_a = {"op": "static", "paths": ["a.txt"]}
+    mk = {"op": "step", "label": "mk", "inp": ["a.txt"], "out": ["b.txt"]}
+    base = e3.Project(sources={"a.txt": "x\n"},
+                      program={"scripts": {"plan.py": [_PF, static_a, mk]}, "commands": {}})
+    bad = e3.Project(sources={"a.txt": "x\n"}, program={"scripts": {"plan.py": [
+        _PF, static_a, {"op": "step", "label": "bad", "inp": ["a.txt"], "out": ["b.txt"]},
+        {"op": "step", "label": "after", "inp": ["b.txt"], "out": ["c.txt"]}]},
+        "commands": {"bad": [{"op": "exit", "rc": 1}]}})
+    waits = e3.Project(sources={}, program={"scripts": {"plan.py": [
+        _PF, {"op": "step", "label": "waits", "inp": ["nothere.txt"], "out": ["c.txt"]}]}, "commands": {}})
+    plan1 = [_PF, {"op": "static", "paths": ["g.py"]}, {"op": "run", "label": "./g.py"}]
+    g = [_PF, {"op": "glob", "pattern": "late*.txt"}]
+
+    def plan2(extra):
+        return ([_PF, {"op": "static", "paths": ["g.py"]}, {"op": "step", "label": "mk_late", "out": ["late1.txt"]}]
+                + extra + [{"op": "run", "label": "./g.py"}])
+
+    late = e3.Project(sources={"late1.txt": "old\n"},
+                      program={"scripts": {"plan.py": plan1, "g.py": g}, "commands": {}})
+    waits_step = {"op": "step", "label": "waits", "inp": ["nothere.txt"]}
+    return [
+        ("clean", base, []),
+        ("failing-step", bad, []),
+        ("failing-step-keep-going", bad, [{"edits": [], "build": {"keep_going": True}}]),
+        ("missing-input", waits, []),
+        ("missing-target", base, [{"edits": [], "build": {"targets": ("nowhere.txt",)}}]),
+        ("invalid-target", base, [{"edits": [], "build": {"targets": ("a.txt",)}}]),
+        ("glob-error-alone", late, [{"edits": [{"op": "script", "path": "plan.py", "actions": plan2([])}], "build": {}}]),
+        ("glob-error+pending", late,
+         [{"edits": [{"op": "script", "path": "plan.py", "actions": plan2([waits_step])}], "build": {}}]),
+        ("glob-error+missing-target", late,
+         [{"edits": [{"op": "script", "path": "plan.py", "actions": plan2([])}],
+           "build": {"targets": ("late1.txt", "nowhere.txt")}}]),
+    ]
+
+
 def try_e3(ctx):
-    e3 = common.VERIF / "harness" / "e3.py"
-    ctx.notes.append("E3 part: " + ("harness/e3.py present but not used by C19 yet" if e3.exists()
-                                    else "harness/e3.py not present; serve() return codes are not compared"))
+    """Real serve() on a few projects: exit status versus the model and versus the property."""
+    try:
+        from . import e3
+    except Exception as e:  # noqa: BLE001
+        ctx.notes.append(f"E3 part skipped: harness/e3.py cannot be imported ({type(e).__name__}: {e})")
+        return
+    header = HEADER
+    checks, names, judged = [], [], []
+    for name, project, history in e3_projects():
+        try:
+            hist = [dict(h, build=dict(h["build"], probe=_e3_probe)) for h in history]
+            if hist:
+                res = e3.run_history(project, hist)[-1]
+            else:
+                res = e3.from_scratch(project, probe=_e3_probe)
+        except Exception as e:  # noqa: BLE001
+            ctx.add_failure("oracle", "e3-crash", f"e3:crash:{name}", f"E3 build {name} raised {type(e).__name__}: {e}")
+            continue
+        rc = res.returncode
+        errors = [d for t, d, _ in res.events if t == "ERROR"]
+        invalid = any(d.startswith("Invalid build target") for d in errors)
+        ctx.count(f"e3:{name}:rc={rc}")
+        ctx.case(("e3", name, rc), True)
+        pr = res.probe
+        if rc < 0 or (pr is None and not invalid):
+            ctx.add_failure("oracle", "e3-error", f"e3:serve-raised:{name}",
+                            f"serve() raised in {name}: {getattr(res, 'error', None)}", witness={"project": name})
+            continue
+        if invalid:
+            checks.append(f"(serve_rc true (mk_ru 0 false 0 0 0 0 0) =? {rc})")
+            names.append(name)
+            if not rc & 4:
+                ctx.add_failure("oracle", "e3", "e3:invalid-target-without-FAILED-bit",
+                                f"invalid target, serve() returned {rc}", witness={"project": name, "rc": rc})
+            continue
+        nfailed = sum(1 for st, need, det in pr["steps"] if st == 24 and not det)
+        npend = sum(1 for st, need, det in pr["steps"] if st == 21 and need > pr["threshold"] and not det)
+        checks.append(f"(serve_rc false (mk_ru {nfailed} {coq_bool(pr['draining'])} {npend} {pr['miss_t']} "
+                      f"{pr['miss_d']} {pr['glob_warn']} {pr['glob_err']}) =? {rc})")
+        names.append(name)
+        judged.append((name, rc, nfailed, npend, pr))
+    bad = common.run_cases(ctx, "e3", header, checks) if checks else []
+    ctx.traces_validated += len(checks) - len(bad)
+    for i in bad:
+        ctx.add_failure("correspondence", "e3:" + names[i], "E3:model-vs-serve:returncode",
+                        f"model exit status differs from serve() in {names[i]}: {checks[i]}",
+                        witness={"project": names[i], "check": checks[i]})
+    for name, rc, nfailed, npend, pr in judged:
+        failed_bit, pending_bit = bool(rc & 4), bool(rc & 16)
+        if pending_bit != ((not pr["draining"]) and npend > 0):
+            ctx.add_failure("oracle", "e3", "e3:PENDING-bit", f"{name}: rc={rc} probe={pr}", witness={"project": name})
+        if failed_bit != (nfailed > 0 or pr["glob_err"] > 0):
+            if not failed_bit and nfailed == 0 and pr["glob_err"] > 0 and rc != 0:
+                sig = ("report_unbuilt:glob-error-skipped:draining" if pr["draining"]
+                       else "report_unbuilt:glob-error-skipped:returncode-already-nonzero")
+                ctx.add_failure("oracle", "e3", sig,
+                                f"serve() on project {name}: a recorded glob match is a file a step builds, "
+                                f"exit status {rc} has no FAILED bit", witness={"project": name, "rc": rc, "probe": pr})
+            else:
+                ctx.add_failure("oracle", "e3", "e3:FAILED-bit", f"{name}: rc={rc} probe={pr}", witness={"project": name})
+        if rc == 0 and (nfailed or npend or pr["glob_err"] or pr["glob_warn"] or pr["miss_t"] or pr["miss_d"]
+                        or any(st != 23 for st, need, det in pr["steps"] if need > pr["threshold"] and not det)):
+            ctx.add_failure("oracle", "e3", "e3:zero-but-something-wrong", f"{name}: probe={pr}", witness={"project": name})
+    ctx.notes.append(f"E3 part: {len(checks)} serve() builds compared with the model")
 
 
 def search(ctx):
